@@ -18,13 +18,13 @@ def checkAdmit (inp obs : KV) : Option String × List (String × String) :=
   -- model: a rejected Enqueue changes nothing; an accepted one adds the cost and one buffer place
   let expDNeeds : Int := if e.isNone then i.cost else 0
   let expDBuf : Int := if e.isNone then 1 else 0
-  let exp := s!"err={errStr e} dneeds={expDNeeds} dbuf={expDBuf}"
-  let got := s!"err={obs.get "err"} dneeds={obs.int "dneeds"} dbuf={obs.int "dbuf"}"
+  let exp := [("err", errStr e), ("dneeds", toString expDNeeds), ("dbuf", toString expDBuf)]
+  let got := [("err", obs.get "err"), ("dneeds", toString (obs.int "dneeds")), ("dbuf", toString (obs.int "dbuf"))]
   -- property monitor P_C14 on the implementation's observation alone
   let viol :=
     (if obs.get "err" != "ok" && (obs.int "dneeds" != 0 || obs.int "dbuf" != 0)
       then [("C14", "rejected-enqueue-has-side-effect:" ++ obs.get "err")] else []) ++
     (if obs.get "err" != errStr e then [("C14", "wrong-admission-result:" ++ obs.get "err" ++ "-expected-" ++ errStr e)] else [])
-  (if exp == got then none else some s!"expected {exp} observed {got}", viol)
+  (diffFields exp got, viol)
 
 end GoBatcher.Driver
